@@ -20,7 +20,7 @@ REQUIRED = ["alias.solves"]
 ASSUMPTIONS = ["results compared with == on the full 8-tuple (the code is deterministic)"]
 TIMEOUT = 1800
 STEPS = [(p, h) for p in (True, False) for h in ("same", "fresh", "copy")]
-TABLE = [("G-DEAD", 500), ("G-ACY", 250), ("G-CYC", 250), ("G-LEX", 150), ("G-TIE", 100), ("FIG55", 20), ("G-ACYNF", 150), ("G-CYCNF", 100), ("G-TINYB", 100), ("G-DUPL", 150), ("G-MIX", 500)]
+TABLE = [("G-DEAD", 350), ("G-ACY", 200), ("G-CYC", 200), ("G-LEX", 150), ("G-TIE", 100), ("FIG55", 20), ("G-ACYNF", 150), ("G-CYCNF", 100), ("G-TINYB", 100), ("G-DUPL", 150), ("G-MIX", 250)]
 
 
 def fig55():
